@@ -17,3 +17,7 @@ Definition clz_ (w a : Z) : Z := if a <=? 0 then w else w - (Z.log2 a + 1).     
 
 (* struct Reciprocal { divisor_normalized: Word, shift: u32, reciprocal: Word } *)
 Record g_Reciprocal := { g_Reciprocal_divisor_normalized : Z; g_Reciprocal_shift : Z; g_Reciprocal_reciprocal : Z }.
+
+(* arrays [Limb; LIMBS] are lists; `a[i] = v` *)
+From Coq Require Export List.
+Definition upd_ (l : list Z) (i : nat) (v : Z) : list Z := firstn i l ++ v :: skipn (S i) l.
